@@ -11,7 +11,14 @@ accept/reject.  The tables of the model (switch string -> command, options, requ
 are REGENERATED from the source by translator/clitable.py on every run (coq/gen/CliTable.v) and the theorems of
 coq/Props/Properties_C16.v are re-proved against them.  Those theorems are about the model only (table is functional
 up to the listed clashes, every command has a plan, query commands never write and all others end with the write,
-binary matrix round trip); the equivalence itself is what the scripts test, so the level is translation validation."""
+the dispatch switch agrees with the plans, binary matrix round trip); the equivalence itself is what the scripts test,
+so the level is translation validation.
+
+A difference that is not one of the known defect classes is re-examined before it is reported: the invocation is
+re-executed on both sides from its own pre-state (a) with two malloc fill patterns and (b) under valgrind memcheck; if a
+side disagrees with itself, or the LIBRARY (not the tool) commits a memory error, the outcome of the invocation is not a
+function of its inputs (undefined behaviour inside the library, same code on both sides): counted as nondeterministic,
+listed in the evidence, not a C16 violation.  Invocations on which the library does not return are counted as timeouts."""
 import hashlib
 import importlib.util
 import json
@@ -1335,6 +1342,9 @@ def read_tables(runner):
 
 def run(res, tier, seed, replay_obj=None):
     os.makedirs(WORK, exist_ok=True)
+    for d in os.listdir(WORK):          # directories of diverging scripts of the previous run
+        if re.fullmatch(r"s.+", d) or d in ("alias", "vg"):
+            shutil.rmtree(os.path.join(WORK, d), ignore_errors=True)
     tr_ok, tr_msg = regenerate_table()
     props = vlib.coq_props(PID)
     vlib.proof_coverage(res, PID, props, "python3 translator/clitable.py $REPO coq/gen/CliTable.v && cd coq && make Props/Properties_C16.vo "
